@@ -17,7 +17,9 @@ RULE = ('case = (hard/soft/both graph over 1-6 probe tasks, possibly with back e
         'or the master blocked in Condition.wait at least once; distinct = (graph, outcomes, init, '
         'workers, trace hash)')
 ASSUMPTIONS = ['Condition/Queue/RLock look-alikes have CPython blocking semantics, spurious wake-ups are '
-               'not generated',
+               'not generated; corroborated by running generated cases on real threads in a child process '
+               '(coverage keys real_thread_*): a real run that hangs or leaks is reported only when the '
+               'controlled scheduler reproduces it',
                'initial WAITING/PENDING leftovers are not generated (the property lists the three final states)',
                'a run exceeding 20000 scheduling points is counted as inconclusive, never as a violation']
 BUDGET = {'quick': {'cases': 20000, 'shards': 16, 'seconds': 150, 'shrink_s': 40},
@@ -193,6 +195,56 @@ def run_case(case):
                                                case['outcomes'], case.get('init'), case['workers']))
     out.info = feat
     return out
+
+
+REAL_CASES = {'quick': 12, 'thorough': 250}      # per shard
+
+
+def _confirm(case):
+    """Failures of ``case`` under the controlled scheduler: its own schedule, the default one and
+    all schedules with at most one pre-emption."""
+    found = {}
+    for spec in (case['sched'], ('choices', [])):
+        for fail in judge(case, sc.execute(case, spec), dict(case, sched=spec)):
+            found.setdefault(fail.signature, fail)
+
+    def visit(choices, rec):
+        for fail in judge(case, rec, dict(case, sched=('choices', list(choices)))):
+            found.setdefault(fail.signature, fail)
+    if not found and case['n'] <= 4:
+        sc.dfs_run(case, 1, visit, limit=400)
+    return list(found.values())
+
+
+def shard_extra(tier, seed, shard, nshards, tally, deadline):
+    """Corroboration on real threads (vlib/realrun.py): generated cases run on the unmodified
+    modules in a child process.  A call that does not come back or leaves worker threads alive
+    is looked for under the controlled scheduler; only what is reproduced there is reported
+    (with its schedule), the rest is counted as unconfirmed."""
+    from vlib import realrun
+    cases = realrun.collect_cases(_case(), seed * 1000 + 500 + shard, REAL_CASES[tier])
+    observations = realrun.corroborate(cases)
+    stats = {'real_thread_runs': 0, 'real_thread_came_back_clean': 0, 'real_thread_suspect': 0,
+             'real_thread_suspect_confirmed': 0, 'real_thread_unconfirmed': 0, 'real_thread_not_run': 0}
+    for case, obs in zip(cases, observations):
+        if obs['how'] == 'not-run':
+            stats['real_thread_not_run'] += 1
+            continue
+        stats['real_thread_runs'] += 1
+        if obs['how'] in ('returned', 'raised') and not obs['alive']:
+            stats['real_thread_came_back_clean'] += 1
+            continue
+        stats['real_thread_suspect'] += 1
+        fails = _confirm(case)
+        out = Outcome()
+        out.labels.append('real-threads-suspect')
+        if fails:
+            stats['real_thread_suspect_confirmed'] += 1
+            out.failures.extend(fails)
+        else:
+            stats['real_thread_unconfirmed'] += 1
+        tally.add(case, out, 'real-threads')
+    return stats
 
 
 MANIFEST = {
